@@ -104,6 +104,9 @@ var c08Zoo = []struct{ name, patch, src string }{
 	{"import-named", "@@\n@@\n-import vfold \"vf/old/pkg\"\n+import vfnew \"vf/new/pkg\"\n\n-vfold.Do()\n+vfnew.Do()\n", "package a\n\nimport vfold \"vf/old/pkg\"\n\nfunc f() {\n\tvfold.Do()\n}\n"},
 	{"value-decl", "@@\nvar n identifier\n@@\n-var n = vfOld()\n+var n = vfNew()\n", "package a\n\nvar x = vfOld()\n"},
 	{"multi-change-comments", "# first\n@@\n# meta comment\nvar x expression\n@@\n# body comment\n-vfA(x)\n+vfB(x)\n\n# second\n# more\n@@\n@@\n-vfC\n+vfD\n", "package a\n\nfunc f() {\n\tvfA(vfC)\n}\n"},
+	{"line-directive-in-import-group", "@@\n@@\n-import \"errors\"\n\n-errors.New(\"x\")\n+nil\n", "package a\n\nimport (\n\t\"errors\"\n//line foo.go:1000\n\n\t// doc\n\t\"fmt\"\n)\n\nfunc f() error {\n\tfmt.Println(\"hi\")\n\treturn errors.New(\"x\")\n}\n"},
+	{"line-directive-before-trailing-import-comment", "@@\n@@\n-import \"errors\"\n\n-errors.New(\"x\")\n+nil\n", "package a\n\nimport (\n\t\"errors\"\n/*line bar.go:77*/\n\t\"fmt\" // used below\n)\n\nfunc f() error {\n\tfmt.Println(\"hi\")\n\treturn errors.New(\"x\")\n}\n"},
+	{"line-directive-add-import", "@@\n@@\n+import \"os\"\n\n-vfExit()\n+os.Exit(1)\n", "package a\n\n//line gen.y:40\nimport (\n\t\"fmt\"\n)\n\n//line gen.y:90\nfunc f() {\n\tfmt.Println()\n\tvfExit()\n}\n"},
 	{"named-change", "@@ first @@\nvar x expression\n@@\n-vfA(x)\n+vfB(x)\n", "package a\n\nfunc f() {\n\tvfA(1)\n}\n"},
 }
 
